@@ -50,6 +50,14 @@ func C15(c *Ctx) int {
 		hs = append(hs, Harness{Name: fmt.Sprintf("ast.ClassRanges[k=%d]", k), Pkg: "internal/ast", Func: "H_ClassRanges", Params: map[string]int{"k": k},
 			Reach: []string{"negated", "plain"}, Bounds: fmt.Sprintf("[..] / ~[..] with %d arbitrary items, arbitrary probe code point", k)})
 	}
+	kni := 3
+	if c.Thorough() {
+		kni = 4
+	}
+	for k := 2; k <= kni; k++ {
+		hs = append(hs, Harness{Name: fmt.Sprintf("mode.NormalizeInputs[k=%d]", k), Pkg: "internal/lexergen/mode", Func: "H_NormalizeInputs", Params: map[string]int{"k": k},
+			Reach: []string{"split"}, Bounds: fmt.Sprintf("%d rules, each one transition on an arbitrary range; arbitrary probe code point", k)})
+	}
 	diffs := [][2]int{{1, 1}}
 	if c.Thorough() {
 		diffs = append(diffs, [2]int{2, 1}, [2]int{1, 2})
